@@ -173,7 +173,7 @@ def scenario(ctx, R, rng, content, B, tmo_opt, silence_after, ending, tick_gap):
 def run(ctx, build):
     R = ctx.try_runner('Tftp')
     rng = ctx.rng
-    n = 160 if ctx.thorough else 50
+    n = 2500 if ctx.thorough else 50
     if ctx.widen:
         n *= 2
     poll = 10_000_000
@@ -192,7 +192,7 @@ def run(ctx, build):
     ctx.sample(dict(B=8, timeout='utimeout=10000', silence_after=1, tick_gap_ms=10))
 
     # ---- real threads / sockets / descriptors -----------------------------------------------------
-    for r in range(2 if ctx.thorough else 1):
+    for r in range(4 if ctx.thorough else 1):
         res = realserver.run_script(REAL, timeout=180)
         ctx.case(('real', r), True, 'real-udp')
         if res.get('crash'):
